@@ -98,4 +98,11 @@ CHECKS["C08"] = dict(
     note="i32/f32 compared on 32 significant bits at the Go side; funcref values are not generated; amd64 compiler.",
 )
 
+CHECKS["C07"] = dict(
+    technique="TLA+ model of guest control/call graphs with check placement rules (Termination.tla); TLC liveness (Stops under weak fairness) per cycle shape under the demanded rule and under the rules the code uses; every shape assembled from the specification's program and run on both engines x six triggers in supervised children",
+    text="Termination.tla gives a catalogue of every way to form a cycle (loop, nested loops, loop with calls, direct / mutual / indirect recursion, return_call / return_call_indirect / mutual tail-call cycles, a loop inside a host callback, a loop in an imported function, a loop two imports deep) as node programs and a semantics with frames, a ceiling, cancellation and parametric check placement (at loop back edges, before tail calls) and polled module (entry / caller). TLC proves Stops for every shape under the demanded rule and produces lassos under the as-coded rules (candidates only). The driver assembles the specification's programs to wasm (two instances where the shape needs them) and runs each on the interpreter and the compiler with WithCloseOnContextDone under six triggers (deadline, cancel from another goroutine, already-cancelled context, Module.CloseWithExitCode from another goroutine, cancel with a custom cause, deadline with a custom cause); a child that must be killed after 8 s is the violation; otherwise the error must be the exit error with the cause's code (stack overflow accepted for frame-pushing cycles) and the module closed.",
+    design_ref="§4 C07",
+    note="Timing: 8 s bound vs tens of ms for conforming runs; shapes come from a catalogue, not from arbitrary programs.",
+)
+
 NOT_YET = "check not built yet in this round (work in progress; see DESIGN.md §4)"
